@@ -300,3 +300,9 @@ Proof.
   - apply forallb_ltb with (i := i) in E1; [lia|exact Hi].
   - apply forallb_ltb with (i := i) in E2; [lia|exact Hi].
 Qed.
+
+Lemma neighbors_spec_both cell cn cd xyz query hay :
+  neighbors_frame cell cn cd xyz query hay =
+    filter (fun i => existsb (fun j => negb (Nat.eqb i j) && within cell cn cd xyz i j) query) hay
+  /\ (NoDup hay -> NoDup (neighbors_frame cell cn cd xyz query hay)).
+Proof. split; [apply neighbors_frame_filter|apply neighbors_nodup]. Qed.
